@@ -1,4 +1,6 @@
-(* ===== Mat2.v ===== *)
+(* ===== Mat2.v : reusing a materialised spec on new data (C04, C09, C10 subset, C07) =====
+   factor re-evaluation, the recorded-kind guard, the drop set, rehydrated scoped terms, encoding with the recorded category
+   list pinned (absent levels -> zero columns, unseen levels -> all-zero rows), _enforce_structure. No proofs in this file. *)
 From Coq Require Import List NArith ZArith QArith Qcanon Bool Arith.
 Import ListNotations.
 Require Import Mat.
@@ -15,31 +17,23 @@ Record spec := {
 Fixpoint enc_lookup (e : list (str * ekind)) (k : str) : option ekind :=
   match e with [] => None | (k', v) :: r => if leqb k' k then Some v else enc_lookup r k end.
 
-(* encoding with an optional pinned level list *)
+(* encoding with an optional pinned level list (the recorded categories win over everything else) *)
 Definition encode_with (e : str) (v : ev) (reduced : bool) (drop : list nat) (pinned : option (list str)) : list (str * column) :=
   match v with
   | EvConst _ => []
   | EvNum c => [(e, keep_rows c drop 0)]
-  | EvCat c =>
+  | EvCat c declared =>
       let kept := keep_rows c drop 0 in
-      let lvs := match pinned with Some l => l | None => levels_of kept end in
+      let lvs := match pinned with Some l => l | None => match declared with Some l => l | None => levels_of kept end end in
       if reduced then map (fun lv => (name_red e lv, indicator kept lv)) (tl lvs)
       else map (fun lv => (name_full e lv, indicator kept lv)) lvs
   end.
 
-(* build, additionally returning the spec (same computation as Mat.build; structure + encoder state recorded) *)
-Definition enc_of (evs : list (str * ev)) (drop : list nat) (used : list str) : list (str * ekind) :=
-  flat_map (fun p => if mem_s (fst p) used then
-                       match snd p with
-                       | EvNum _ => [(fst p, KNum)]
-                       | EvCat c => [(fst p, KCat (levels_of (keep_rows c drop 0)))]
-                       | EvConst _ => [] end
-                     else []) evs.
-
 Definition zeros (n : nat) : column := repeat (Some (Q2Qc 0)) n.
 
-Inductive rerr := REval | RNull | RTooMany | RInsufficient | RInconsistent | ROther.
+Inductive rerr := REval | RNull | RTooMany | RInsufficient | RInconsistent | RKind | ROther.
 
+(* _enforce_structure for one term *)
 Definition enforce (generated : list (str * column)) (target : list str) (nkeep : nat) : (list (str * column)) + rerr :=
   if (length target <? length generated)%nat then inr RTooMany
   else if (length generated <? length target)%nat then
@@ -52,40 +46,50 @@ Definition enforce (generated : list (str * column)) (target : list str) (nkeep 
        then inl (map (fun n => (n, match find (fun p => leqb (fst p) n) generated with Some p => snd p | None => [] end)) target)
        else inr RInconsistent.
 
+(* the guard of _evaluate_factor: a factor whose kind differs from the recorded one is an encoding error *)
+Definition kind_ok (enc : list (str * ekind)) (p : str * ev) : bool :=
+  match enc_lookup enc (fst p), snd p with
+  | Some KNum, EvCat _ _ => false
+  | Some (KCat _), EvNum _ => false
+  | _, _ => true
+  end.
+
+Definition rcols_of (sp : spec) (evs : list (str * ev)) (drop : list nat) (nkeep : nat) (st : sterm) : list (str * column) :=
+  match st_f st with
+  | [] => [(s_intercept, vscale (st_scale st) (ones nkeep))]
+  | fs => map (fun nc => (fst nc, vscale (st_scale st) (snd nc)))
+              (kron (map (fun sf => match lookup_ev evs (sf_expr sf) with
+                                    | Some v => encode_with (sf_expr sf) v (sf_red sf) drop
+                                                  (match enc_lookup (sp_enc sp) (sf_expr sf) with Some (KCat l) => Some l | _ => None end)
+                                    | None => [] end) fs))
+  end.
+
+Fixpoint replay_terms (sp : spec) (evs : list (str * ev)) (drop : list nat) (nkeep : nat)
+                      (l : list (list sterm * list str)) (acc : list (str * column)) : (list (str * column)) + rerr :=
+  match l with
+  | [] => inl acc
+  | (sts, target) :: r =>
+      let gen := fold_left (fun dct st => dict_update dct (rcols_of sp evs drop nkeep st)) sts [] in
+      match enforce gen target nkeep with
+      | inr e => inr e
+      | inl cols => replay_terms sp evs drop nkeep r (dict_update acc cols)
+      end
+  end.
+
 Definition replay (sp : spec) (d : frame) (nrows : nat) (caller : list nat) : (list str * list column * list nat) + rerr :=
-  let c := sp_cfg sp in
-  let pool := fold_left (fun acc f => if mem_s (fx f) (map fx acc) then acc else acc ++ [f]) (concat (sp_terms sp)) [] in
-  match (fix go (l : list factor) (acc : list (str * ev)) : option (list (str * ev)) :=
-           match l with [] => Some (rev acc)
-           | f :: r => match eval_factor d f with inl v => go r ((fx f, v) :: acc) | inr _ => None end end) pool [] with
-  | None => inr REval
-  | Some evs =>
-    let all_nulls := flat_map (fun p => nulls_of (snd p)) evs in
-    match na_action c, all_nulls with
+  let c := {| full_rank := full_rank (sp_cfg sp); na_action := na_action (sp_cfg sp); caller_drop := caller |} in
+  match eval_pool d (pool_of (sp_terms sp)) [] with
+  | inr _ => inr REval
+  | inl evs =>
+    if negb (forallb (kind_ok (sp_enc sp)) evs) then inr RKind else
+    match na_action c, all_nulls evs with
     | NaRaise, _ :: _ => inr RNull
     | _, _ =>
-      let drop := match na_action c with
-                  | NaDrop => fold_right ins_n [] (caller ++ all_nulls)
-                  | _ => fold_right ins_n [] caller end in
+      let drop := drop_set c evs in
       let nkeep := (nrows - length drop)%nat in
-      let cols_of (st : sterm) : list (str * column) :=
-        match st_f st with
-        | [] => [(s_intercept, vscale (st_scale st) (ones nkeep))]
-        | fs => map (fun nc => (fst nc, vscale (st_scale st) (snd nc)))
-                    (kron (map (fun sf => match lookup_ev evs (sf_expr sf) with
-                                          | Some v => encode_with (sf_expr sf) v (sf_red sf) drop
-                                                        (match enc_lookup (sp_enc sp) (sf_expr sf) with Some (KCat l) => Some l | _ => None end)
-                                          | None => [] end) fs))
-        end in
-      (fix go (l : list (list sterm * list str)) (acc : list (str * column)) : (list str * list column * list nat) + rerr :=
-         match l with
-         | [] => inl (map fst acc, map snd acc, drop)
-         | (sts, target) :: r =>
-             let gen := fold_left (fun dct st => dict_update dct (cols_of st)) sts [] in
-             match enforce gen target nkeep with
-             | inr e => inr e
-             | inl cols => go r (dict_update acc cols)
-             end
-         end) (sp_struct sp) []
+      match replay_terms sp evs drop nkeep (sp_struct sp) [] with
+      | inr e => inr e
+      | inl final => inl (map fst final, map snd final, drop)
+      end
     end
   end.
